@@ -1906,6 +1906,9 @@ class Stream:
                 l2cap.ClassicChannelSpec(psm=AVDTP_PSM)
             )
         )
+        self.rtp_channel.on(
+            self.rtp_channel.EVENT_CLOSE, self.on_l2cap_channel_close
+        )
 
     async def start(self) -> None:
         """[Source] Start streaming."""
